@@ -55,6 +55,7 @@ pub struct Out {
     pub kcases: Vec<String>,
     pub splitcases: Vec<String>,
     pub findcases: Vec<String>,
+    pub parsecases: Vec<String>,
     pub descs: Vec<(u64, String)>,
 }
 impl Out {
@@ -158,6 +159,7 @@ fn coq_gkey(w: &World, k: &GKey) -> String {
                 _ => format!("(KSingle {} (Sx \"{}\"))", o, hex(&pk.x_only_public_key().0.serialize())),
             }
         }
+        GKey::Raw { .. } => "(KSingle None (Sx \"\"))".to_string(),
         GKey::X { xk, with_origin, alts, wild, .. } => {
             let o = if *with_origin {
                 coq_origin(&Some((w.xks[*xk].master_fp, w.xks[*xk].opath.clone())))
@@ -204,6 +206,43 @@ fn coq_implkey(w: &World, k: &DescriptorPublicKey) -> String {
             let ps: Vec<String> = x.derivation_paths.paths().iter().map(|p| coq_steps(&path(p))).collect();
             format!("(KMulti {} {} [{}] {})", orig(&x.origin), xid(&x.xkey), ps.join("; "), wild(x.wildcard))
         }
+    }
+}
+/// error kinds of the key-path parser and their names in the model
+const PARSE_KINDS: [(&str, &str); 4] = [
+    ("InvalidMultiIndexStep", "PInvalidMultiIndexStep"),
+    ("MultipleDerivationPathIndexSteps", "PMultipleSteps"),
+    ("InvalidWildcardInDerivationPath", "PInvalidWildcard"),
+    ("DerivationPathTooLong", "PTooLong"),
+];
+/// the generator's key text as input of the model's parser: origin, xpub number, xpub depth, tokens
+fn coq_parse_input(w: &World, k: &GKey) -> Option<String> {
+    let tstep = |c: &ChildNumber| match c {
+        ChildNumber::Normal { index } => format!("TStep (St false {})", index),
+        ChildNumber::Hardened { index } => format!("TStep (St true {})", index),
+    };
+    match k {
+        GKey::Raw { xk, toks, .. } => Some(format!("None, {}, {}, {}", xk, w.xks[*xk].xpub.depth, toks)),
+        GKey::X { xk, with_origin, pre, alts, post, wild, xprv: false } => {
+            let o = if *with_origin {
+                coq_origin(&Some((w.xks[*xk].master_fp, w.xks[*xk].opath.clone())))
+            } else {
+                "None".to_string()
+            };
+            let mut t: Vec<String> = pre.iter().map(tstep).collect();
+            if !alts.is_empty() {
+                let inner = coq_steps(alts);
+                t.push(format!("TAlts {}", inner));
+            }
+            t.extend(post.iter().map(tstep));
+            match wild {
+                0 => {}
+                1 => t.push("TWild WUnhardened".into()),
+                _ => t.push("TWild WHardened".into()),
+            }
+            Some(format!("{}, {}, {}, [{}]", o, xk, w.xks[*xk].xpub.depth, t.join("; ")))
+        }
+        _ => None,
     }
 }
 fn impl_keys(d: &Descriptor<DescriptorPublicKey>) -> Vec<DescriptorPublicKey> {
@@ -434,9 +473,9 @@ pub fn run_case(w: &World, case: &Case, seed: u64, out: &mut Out) {
     let xprv = case.stream == "xprv";
     let parsed = catch_unwind(AssertUnwindSafe(|| {
         if xprv {
-            Descriptor::parse_descriptor(secp, &s).map(|(d, _)| d).map_err(|e| err_class(&e))
+            Descriptor::parse_descriptor(secp, &s).map(|(d, _)| d).map_err(|e| (err_class(&e), format!("{:?}", e)))
         } else {
-            Descriptor::<DescriptorPublicKey>::from_str(&s).map_err(|e| err_class(&e))
+            Descriptor::<DescriptorPublicKey>::from_str(&s).map_err(|e| (err_class(&e), format!("{:?}", e)))
         }
     }));
     let d = match parsed {
@@ -444,13 +483,17 @@ pub fn run_case(w: &World, case: &Case, seed: u64, out: &mut Out) {
             out.violation("parse-panic", case, &s, None, "parsing the descriptor panicked", "");
             return;
         }
-        Ok(Err(e)) => {
-            if case.mismatch {
+        Ok(Err((e, full))) => {
+            if case.reject.is_some() {
+                // malformed key expression: rejection is the expected outcome; the error KIND is
+                // compared with the model's parser inside Coq
+                let kind = PARSE_KINDS.iter().find(|(k, _)| full.contains(k));
+                out.h("malformed-key-outcome", &format!("rejected:{}", kind.map(|k| k.0).unwrap_or("other")));
+                if let (Some(term), Some((_, coq))) = (coq_parse_input(w, &case.keys[0]), kind) {
+                    out.parsecases.push(format!("({}, {}, (PErr {}))", case.id, term, coq));
+                }
+            } else if case.mismatch {
                 out.h("mismatch-outcome", &format!("rejected-at-parse:{}", e));
-            } else if case.keys.iter().any(|k| k.has_duplicate_alts()) {
-                // a multipath step listing the same index twice: rejected since /repo 109461ce
-                // (as Bitcoin Core does); either outcome is consistent with this property
-                out.h("duplicate-alternative-outcome", &format!("rejected-at-parse:{}", e));
             } else {
                 out.violation("parse-reject", case, &s, None, &format!("a valid descriptor is rejected: {}", e), "");
             }
@@ -458,6 +501,42 @@ pub fn run_case(w: &World, case: &Case, seed: u64, out: &mut Out) {
         }
         Ok(Ok(d)) => d,
     };
+    if let Some(kind) = case.reject {
+        // accepted although malformed: show what it turns into
+        let printed = format!("{:#}", d);
+        let reparsed = Descriptor::<DescriptorPublicKey>::from_str(&printed).ok();
+        let n_split = d.clone().into_single_descriptors().map(|v| v.len()).unwrap_or(0);
+        let n_split2 = reparsed.map(|x| x.into_single_descriptors().map(|v| v.len()).unwrap_or(0)).unwrap_or(0);
+        out.h("malformed-key-outcome", "accepted");
+        out.violation(
+            "malformed-key-accepted",
+            case,
+            &s,
+            None,
+            &format!(
+                "a malformed key expression (expected {}) is accepted; it prints as {} ; the descriptor splits into {} \
+                 single descriptors, its printed form into {}",
+                kind, printed, n_split, n_split2
+            ),
+            &format!(",\"printed\":{}", jstr(&printed)),
+        );
+        return;
+    }
+    // model tie for the key parser: the implementation's parsed keys
+    if !xprv {
+        let ik = impl_keys(&d);
+        let order = case.shape.key_order();
+        for (pos, kidx) in order.iter().enumerate() {
+            let g = &case.keys[*kidx];
+            let multi = g.n_alts() > 0;
+            if !(multi || case.id % 3 == 0 || case.id < super::gen::N_CORPUS) {
+                continue;
+            }
+            if let (Some(term), Some(k)) = (coq_parse_input(w, g), ik.get(pos)) {
+                out.parsecases.push(format!("({}, {}, (POk {}))", case.id, term, coq_implkey(w, k)));
+            }
+        }
+    }
     let n_alts = case.keys.iter().map(|k| k.n_alts()).max().unwrap_or(0);
     let forms: BTreeSet<&str> = case.keys.iter().map(|k| k.form_name()).collect();
     for f in &forms {
@@ -624,7 +703,20 @@ pub fn run_case(w: &World, case: &Case, seed: u64, out: &mut Out) {
             let (got, at) = match (got, at) {
                 (Ok(g), Ok(a)) => (g, a),
                 _ => {
-                    out.violation("derive-panic", case, &sj, Some(i), "derivation panicked", "");
+                    let deep = keys_j.iter().any(|k| k.total_depth(w) > 255);
+                    let key = if deep { "derive-depth-overflow-panic" } else { "derive-panic" };
+                    out.violation(
+                        key,
+                        case,
+                        &sj,
+                        Some(i),
+                        if deep {
+                            "derivation panics: the key expression needs BIP32 depth 256 but was accepted by the parser"
+                        } else {
+                            "derivation panicked"
+                        },
+                        "",
+                    );
                     continue;
                 }
             };
